@@ -45,7 +45,7 @@ func VerifEscapeAttr() {
 	b := vBytes("b", n)
 	for i := range b {
 		c := b[i]
-		vAssume(c == '\'' || c == '"' || c == '&' || c == '#' || c == '3' || c == '4' || c == '9' || c == ';' || c == 'a' || c == ' ' || c == '=' || c == '>' || c == '/' || c == '\n' || c == '`' || c == '<')
+		vAssume(c == '\'' || c == '"' || c == '&' || c == '#' || c == '3' || c == '4' || c == '9' || c == ';' || c == 'a' || c == ' ' || c == '=' || c == '>' || c == '/' || c == '\n' || c == '`' || c == '<' || c == '\f' || c == '\v' || c == '\t' || c == '\r')
 	}
 	orig := append([]byte(nil), b...)
 	var origQuote byte
